@@ -21,9 +21,7 @@ ensures r matches Ok(f) ==> forall|ch: char| #[trigger] f.sem()(ch) == named_uni
 perl = tf('&ClassPerl', 'try_from__perl', '''
 ensures r matches Ok(f) && forall|ch: char| #[trigger] f.sem()(ch) == named_perl(*perl)(ch)
 ''', edits=[
-    Replace('U3', 'ClassPerlKind::Word => MatchFn::new(|ch| { $body }),', 'ClassPerlKind::Word => verif_perl_word_leaf(),',
-            why='TRUSTED leaf: the \\w closure calls seshat tables (join_c, gc) Verus has no access to; its set is the uninterpreted spec_perl_word'),
-    MatchFnClosures(calls={'is_numeric': 'spec_is_numeric', 'is_whitespace': 'spec_is_whitespace'}),
+    MatchFnClosures(calls={'is_numeric': 'spec_is_numeric', 'is_whitespace': 'spec_is_whitespace', 'is_alphanumeric': 'spec_is_alphanumeric', 'join_c': 'spec_join_c', 'gc': 'spec_gc'}),
 ])
 
 union = tf('&ClassSetUnion', 'try_from__union', '''
@@ -99,13 +97,11 @@ decreases *arg.0, 0int
 ''', edits=[
     Ins('body_start', None, 'let (item, negated) = arg;') if False else Replace('E2', 'let match_function = match item {', 'let (item, negated) = arg;\nlet match_function = match item {', why='tuple pattern in the parameter list bound by a let (Verus rejects patterns in parameters of functions with contracts)'),
     Replace('E9', 'l.try_into()?', 'MatchFn::try_from__literal(l)?', why='trait dispatch resolved by argument type'),
-    Replace('U3', 'ClassAsciiKind::Word => MatchFn::new(|ch| { $body }),', 'ClassAsciiKind::Word => verif_perl_word_leaf(),',
-            why='TRUSTED leaf: the [:word:] closure calls seshat tables (join_c, gc) Verus has no access to; its set is the uninterpreted spec_perl_word'),
     Replace('E9', 'ClassSetItem::Unicode(ref c) => c.try_into()?', 'ClassSetItem::Unicode(ref c) => MatchFn::try_from__unicode(c)?', why='trait dispatch resolved by argument type'),
     Replace('E9', 'ClassSetItem::Perl(ref c) => c.try_into()?', 'ClassSetItem::Perl(ref c) => MatchFn::try_from__perl(c)?', why='trait dispatch resolved by argument type'),
     Replace('E9', 'c.as_ref().try_into()?', 'MatchFn::try_from__bracketed(c.as_ref())?', why='trait dispatch resolved by argument type'),
     Replace('E9', 'ClassSetItem::Union(ref c) => c.try_into()?', 'ClassSetItem::Union(ref c) => MatchFn::try_from__union(c)?', why='trait dispatch resolved by argument type'),
-    MatchFnClosures(calls={'is_alphanumeric': 'spec_is_alphanumeric', 'is_alphabetic': 'spec_is_alphabetic', 'is_ascii': 'spec_is_ascii', 'is_ascii_whitespace': 'spec_is_ascii_whitespace', 'is_ascii_control': 'spec_is_ascii_control', 'is_ascii_graphic': 'spec_is_ascii_graphic', 'is_lowercase': 'spec_is_lowercase', 'is_ascii_punctuation': 'spec_is_ascii_punctuation', 'is_uppercase': 'spec_is_uppercase', 'is_ascii_hexdigit': 'spec_is_ascii_hexdigit', 'is_numeric': 'spec_is_numeric', 'is_whitespace': 'spec_is_whitespace'}),
+    MatchFnClosures(calls={'is_alphanumeric': 'spec_is_alphanumeric', 'is_alphabetic': 'spec_is_alphabetic', 'is_ascii': 'spec_is_ascii', 'is_ascii_whitespace': 'spec_is_ascii_whitespace', 'is_ascii_control': 'spec_is_ascii_control', 'is_ascii_graphic': 'spec_is_ascii_graphic', 'is_lowercase': 'spec_is_lowercase', 'is_ascii_punctuation': 'spec_is_ascii_punctuation', 'is_uppercase': 'spec_is_uppercase', 'is_ascii_hexdigit': 'spec_is_ascii_hexdigit', 'is_numeric': 'spec_is_numeric', 'is_whitespace': 'spec_is_whitespace', 'join_c': 'spec_join_c', 'gc': 'spec_gc'}),
 ])
 
 binop = Fn(F_MF, 'TryFrom<(&ClassSetBinaryOp, bool)> for MatchFn', 'try_from', ret='r', rename='try_from__binop', impl_as=MF, qual_as=MF, props=['C08'],
